@@ -1,6 +1,6 @@
 (* C08 - proofs: the operational model of Backend.convert (Model/Collection.v) against the per-rule
    specification (Spec/Collection.v). *)
-From Coq Require Import NArith List Bool Arith Lia.
+From Coq Require Import NArith List Bool Arith Lia Sorted.
 From PS Require Import Base.Outcome Model.Collection Spec.Collection.
 Import ListNotations.
 
@@ -35,12 +35,12 @@ Notation has_backref := (has_backref drule crule).
 Lemma lookup_sopt (acc : list dtree) j :
   lookup query (map sopt acc) j =
   match nth_error acc j with
-  | Some t' => match alone t' with Ok rr => Some (stored rr) | _ => None end
+  | Some t' => stored (alone t')
   | None => None
   end.
 Proof.
   unfold lookup. rewrite nth_error_map. destruct (nth_error acc j) as [t'|]; simpl; [|reflexivity].
-  unfold Spec.Collection.sopt. destruct (alone t'); reflexivity.
+  unfold Spec.Collection.sopt. destruct (stored (alone t')); reflexivity.
 Qed.
 
 Lemma conv_raw_alone C i (r : rule) (acc : list dtree) :
@@ -52,24 +52,24 @@ Proof.
   rewrite map_map.
   rewrite (map_ext (lookup query (map sopt acc))
                    (fun j => match nth_error acc j with
-                             | Some t' => match alone t' with Ok rr => Some (stored rr) | _ => None end
+                             | Some t' => stored (alone t')
                              | None => None end)); [reflexivity|].
   intro j. apply lookup_sopt.
 Qed.
 
 (* ---- the run, replayed on the trees ---- *)
-Definition st_ok (st : state) (rr : rres query) : state :=
-  {| results := results st ++ [Some (stored rr)]; errors := errors st; emitted := emitted st ++ shown rr |}.
-Definition st_err (st : state) (i : nat) (e : N) : state :=
-  {| results := results st ++ [None]; errors := errors st ++ [(i, e)]; emitted := emitted st |}.
+Definition st_ok (st : state) (so : option (list query)) (qs : list query) : state :=
+  {| results := results st ++ [so]; errors := errors st; emitted := emitted st ++ qs |}.
+Definition st_err (st : state) (so : option (list query)) (i : nat) (e : N) : state :=
+  {| results := results st ++ [so]; errors := errors st ++ [(i, e)]; emitted := emitted st |}.
 
 Fixpoint sem (collect : bool) (i : nat) (ts : list dtree) (st : state) : state * outcome unit :=
   match ts with
   | [] => (st, Ok tt)
   | t :: rest =>
-      match alone t with
-      | Ok rr => sem collect (S i) rest (st_ok st rr)
-      | SigmaErr e => if collect then sem collect (S i) rest (st_err st i e) else (st, SigmaErr e)
+      match ret (alone t) with
+      | Ok qs => sem collect (S i) rest (st_ok st (sopt t) qs)
+      | SigmaErr e => if collect then sem collect (S i) rest (st_err st (sopt t) i e) else (st, SigmaErr e)
       | Crash c => (st, Crash c)
       end
   end.
@@ -83,12 +83,10 @@ Proof.
   assert (EQ : finish (payload_of drule crule r) (out_enabled C i) (has_backref C i) (conv_raw (results st) r)
                = alone (mk_tree C i r acc)) by (rewrite Hres; apply conv_raw_alone).
   rewrite EQ.
-  destruct (alone (mk_tree C i r acc)) as [rr|e|c] eqn:E.
-  - apply IH. cbn [results]. rewrite map_app. cbn [map].
-    unfold Spec.Collection.sopt at 2. rewrite E. rewrite <- Hres. reflexivity.
+  destruct (ret (alone (mk_tree C i r acc))) as [qs|e|c] eqn:E.
+  - apply IH. cbn [results]. rewrite map_app. cbn [map]. rewrite <- Hres. reflexivity.
   - destruct collect; [|reflexivity].
-    apply IH. cbn [results]. rewrite map_app. cbn [map].
-    unfold Spec.Collection.sopt at 2. rewrite E. rewrite <- Hres. reflexivity.
+    apply IH. cbn [results]. rewrite map_app. cbn [map]. rewrite <- Hres. reflexivity.
   - reflexivity.
 Qed.
 
@@ -105,50 +103,48 @@ Lemma plus_nil st i : plus st i [] = st.
 Proof. unfold plus. cbn. rewrite !app_nil_r. destruct st; reflexivity. Qed.
 
 Lemma sem_app collect : forall pre rest i st,
-  forallb (fun t => negb (stops collect (alone t))) pre = true ->
+  forallb (fun t => negb (stops collect (ret (alone t)))) pre = true ->
   sem collect i (pre ++ rest) st = sem collect (i + length pre) rest (plus st i pre).
 Proof.
   induction pre as [|t pre IH]; intros rest i st H.
   - cbn [app length]. rewrite Nat.add_0_r, plus_nil. reflexivity.
   - cbn [forallb] in H. apply andb_true_iff in H. destruct H as [Ht Hpre].
     cbn [app sem length]. rewrite Nat.add_succ_r.
-    destruct (alone t) as [rr|e|c] eqn:E; cbn [stops negb] in Ht.
+    destruct (ret (alone t)) as [qs|e|c] eqn:E; cbn [stops negb] in Ht.
     + rewrite IH by exact Hpre. cbn [Nat.add]. f_equal.
       unfold plus, st_ok. cbn [results errors emitted map Spec.Collection.exp_errors Spec.Collection.exp_queries flat_map].
-      unfold Spec.Collection.sopt at 2. rewrite E. cbn [app].
-      rewrite <- !app_assoc. reflexivity.
+      rewrite E. cbn [app]. rewrite <- !app_assoc. reflexivity.
     + destruct collect; [|discriminate].
       rewrite IH by exact Hpre. cbn [Nat.add]. f_equal.
       unfold plus, st_err. cbn [results errors emitted map Spec.Collection.exp_errors Spec.Collection.exp_queries flat_map].
-      unfold Spec.Collection.sopt at 2. rewrite E. cbn [app].
-      rewrite <- !app_assoc. reflexivity.
+      rewrite E. cbn [app]. rewrite <- !app_assoc. reflexivity.
     + discriminate.
 Qed.
 
 Lemma sem_pass collect ts i st :
-  forallb (fun t => negb (stops collect (alone t))) ts = true ->
+  forallb (fun t => negb (stops collect (ret (alone t)))) ts = true ->
   sem collect i ts st = (plus st i ts, Ok tt).
 Proof.
   intros H. rewrite <- (app_nil_r ts) at 1. rewrite sem_app by exact H. reflexivity.
 Qed.
 
 Lemma sem_stop collect pre t post i st :
-  forallb (fun t => negb (stops collect (alone t))) pre = true ->
-  stops collect (alone t) = true ->
-  sem collect i (pre ++ t :: post) st = (plus st i pre, err_of (alone t)).
+  forallb (fun t => negb (stops collect (ret (alone t)))) pre = true ->
+  stops collect (ret (alone t)) = true ->
+  sem collect i (pre ++ t :: post) st = (plus st i pre, err_of (ret (alone t))).
 Proof.
   intros Hpre Ht. rewrite sem_app by exact Hpre. cbn [sem].
-  destruct (alone t) as [rr|e|c]; cbn [stops] in Ht; try discriminate.
+  destruct (ret (alone t)) as [rr|e|c]; cbn [stops] in Ht; try discriminate.
   - destruct collect; [discriminate|]. reflexivity.
   - reflexivity.
 Qed.
 
 Lemma exp_errors_all_ok : forall ts i,
-  forallb (fun t => is_ok (alone t)) ts = true -> exp_errors i ts = [].
+  forallb (fun t => is_ok (ret (alone t))) ts = true -> exp_errors i ts = [].
 Proof.
   induction ts as [|t ts IH]; intros i H; [reflexivity|].
   cbn [forallb] in H. apply andb_true_iff in H. destruct H as [Ht Hts].
-  cbn [Spec.Collection.exp_errors]. destruct (alone t); try discriminate. cbn [app]. apply IH, Hts.
+  cbn [Spec.Collection.exp_errors]. destruct (ret (alone t)); try discriminate. cbn [app]. apply IH, Hts.
 Qed.
 
 Lemma forallb_impl {A} (f g : A -> bool) l :
@@ -164,7 +160,7 @@ Lemma init_plus ts : plus (init query) 0 ts =
 Proof. reflexivity. Qed.
 
 Theorem convert_pass collect C :
-  forallb (fun t => negb (stops collect (alone t))) (trees C) = true ->
+  forallb (fun t => negb (stops collect (ret (alone t)))) (trees C) = true ->
   convert collect C =
   ({| results := map sopt (trees C); errors := exp_errors 0 (trees C); emitted := exp_queries (trees C) |},
    finout (exp_queries (trees C))).
@@ -176,45 +172,45 @@ Qed.
 
 Theorem convert_stop collect C pre t post :
   trees C = pre ++ t :: post ->
-  forallb (fun t => negb (stops collect (alone t))) pre = true ->
-  stops collect (alone t) = true ->
+  forallb (fun t => negb (stops collect (ret (alone t)))) pre = true ->
+  stops collect (ret (alone t)) = true ->
   convert collect C =
-  ({| results := map sopt pre; errors := exp_errors 0 pre; emitted := exp_queries pre |}, err_of (alone t)).
+  ({| results := map sopt pre; errors := exp_errors 0 pre; emitted := exp_queries pre |}, err_of (ret (alone t))).
 Proof.
   intros HT Hpre Ht. unfold Collection.convert.
   rewrite (run_sem collect C C [] 0 (init query) eq_refl).
   fold (trees C). rewrite HT, sem_stop by assumption. rewrite init_plus.
-  destruct (alone t) as [rr|e|c]; cbn [stops] in Ht; try discriminate; reflexivity.
+  destruct (ret (alone t)) as [rr|e|c]; cbn [stops] in Ht; try discriminate; reflexivity.
 Qed.
 
 (* collecting mode, no non-Sigma exception: every query accounted for, one record per failing rule *)
 Theorem accounting C :
-  forallb (fun t => negb (is_crash (alone t))) (trees C) = true ->
+  forallb (fun t => negb (is_crash (ret (alone t)))) (trees C) = true ->
   convert true C =
   ({| results := map sopt (trees C); errors := exp_errors 0 (trees C); emitted := exp_queries (trees C) |},
    finout (exp_queries (trees C))).
 Proof.
   intros H. apply convert_pass. revert H. apply forallb_impl.
-  intros t. destruct (alone t); cbn; congruence.
+  intros t. destruct (ret (alone t)); cbn; congruence.
 Qed.
 
 (* non-collecting mode *)
 Theorem first_error C pre t post :
   trees C = pre ++ t :: post ->
-  forallb (fun t => is_ok (alone t)) pre = true ->
-  is_ok (alone t) = false ->
+  forallb (fun t => is_ok (ret (alone t))) pre = true ->
+  is_ok (ret (alone t)) = false ->
   convert false C =
-  ({| results := map sopt pre; errors := []; emitted := exp_queries pre |}, err_of (alone t)).
+  ({| results := map sopt pre; errors := []; emitted := exp_queries pre |}, err_of (ret (alone t))).
 Proof.
   intros HT Hpre Ht.
   rewrite (convert_stop false C pre t post HT).
   - rewrite exp_errors_all_ok by exact Hpre. reflexivity.
-  - revert Hpre. apply forallb_impl. intros x. destruct (alone x); cbn; congruence.
-  - destruct (alone t); cbn in *; congruence.
+  - revert Hpre. apply forallb_impl. intros x. destruct (ret (alone x)); cbn; congruence.
+  - destruct (ret (alone t)); cbn in *; congruence.
 Qed.
 
 Theorem no_error C :
-  forallb (fun t => is_ok (alone t)) (trees C) = true ->
+  forallb (fun t => is_ok (ret (alone t))) (trees C) = true ->
   forall collect,
   convert collect C =
   ({| results := map sopt (trees C); errors := []; emitted := exp_queries (trees C) |},
@@ -222,22 +218,51 @@ Theorem no_error C :
 Proof.
   intros H collect. rewrite convert_pass.
   - rewrite exp_errors_all_ok by exact H. reflexivity.
-  - revert H. apply forallb_impl. intros x. destruct (alone x); cbn; congruence.
+  - revert H. apply forallb_impl. intros x. destruct (ret (alone x)); cbn; congruence.
 Qed.
 
 (* collecting mode: a non-Sigma exception is not caught; what was collected before it stays *)
 Theorem crash_propagates C pre t post c :
   trees C = pre ++ t :: post ->
-  forallb (fun t => negb (is_crash (alone t))) pre = true ->
-  alone t = Crash c ->
+  forallb (fun t => negb (is_crash (ret (alone t)))) pre = true ->
+  ret (alone t) = Crash c ->
   convert true C =
   ({| results := map sopt pre; errors := exp_errors 0 pre; emitted := exp_queries pre |}, Crash c).
 Proof.
   intros HT Hpre Ht.
   rewrite (convert_stop true C pre t post HT).
   - rewrite Ht. reflexivity.
-  - revert Hpre. apply forallb_impl. intros x. destruct (alone x); cbn; congruence.
+  - revert Hpre. apply forallb_impl. intros x. destruct (ret (alone x)); cbn; congruence.
   - rewrite Ht. reflexivity.
+Qed.
+
+
+(* ---- backend.errors: exactly one record per failing rule, in collection order ---- *)
+Lemma exp_errors_In : forall ts i k e,
+  In (k, e) (exp_errors i ts) <->
+  (i <= k /\ exists t, nth_error ts (k - i) = Some t /\ ret (alone t) = SigmaErr e).
+Proof.
+  induction ts as [|t ts IH]; intros i k e; cbn [Spec.Collection.exp_errors].
+  - split; [intros []|]. intros [_ [t [H _]]]. destruct (k - i); discriminate.
+  - rewrite in_app_iff, IH. split.
+    + intros [H | [Hle [t' [Hn Ha]]]].
+      * destruct (ret (alone t)) as [rr|e'|c] eqn:E; try (destruct H; fail).
+        destruct H as [H|[]]. inversion H; subst. split; [lia|].
+        exists t. rewrite Nat.sub_diag. split; [reflexivity|exact E].
+      * split; [lia|]. exists t'. replace (k - i) with (S (k - S i)) by lia. split; assumption.
+    + intros [Hle [t' [Hn Ha]]]. destruct (Nat.eq_dec k i) as [->|Hne].
+      * left. rewrite Nat.sub_diag in Hn. cbn in Hn. inversion Hn; subst. rewrite Ha. left. reflexivity.
+      * right. split; [lia|]. exists t'. replace (k - i) with (S (k - S i)) in Hn by lia. split; assumption.
+Qed.
+
+Lemma exp_errors_lb : forall ts i k e, In (k, e) (exp_errors i ts) -> i <= k.
+Proof. intros ts i k e H. apply exp_errors_In in H. tauto. Qed.
+
+Lemma exp_errors_sorted : forall ts i, StronglySorted (fun a b => fst a < fst b) (exp_errors i ts).
+Proof.
+  induction ts as [|t ts IH]; intros i; cbn [Spec.Collection.exp_errors]; [constructor|].
+  destruct (ret (alone t)) as [rr|e|c]; cbn [app]; try apply IH.
+  constructor; [apply IH|]. apply Forall_forall. intros [k e'] H. apply exp_errors_lb in H. cbn. lia.
 Qed.
 
 (* ---- the trees: a rule's tree mentions only the rule, its flags and what it refers to ---- *)
@@ -289,19 +314,29 @@ Proof.
   destruct (same_shape_flags C C' i HS) as [-> ->]. reflexivity.
 Qed.
 
+(* what is stored for the referring correlation rules does not depend on the rule's own output switch *)
+Lemma stored_out_irrelevant p out out' br raw :
+  stored (finish p out br raw) = stored (finish p out' br raw).
+Proof.
+  unfold Collection.finish. destruct raw as [qs|e|c]; try reflexivity.
+  destruct (fcs || negb br); [|reflexivity].
+  destruct (fin_all query drule crule finq p 0 qs); reflexivity.
+Qed.
+
 (* converting a detection rule as the only member of a collection *)
 Theorem alone_singleton d collect :
   convert collect [Det d] =
-  match alone (Leaf d true false) with
-  | Ok rr => ({| results := [Some (stored rr)]; errors := []; emitted := shown rr |}, finout (shown rr))
-  | SigmaErr e => if collect then ({| results := [None]; errors := [(0, e)]; emitted := [] |}, finout [])
+  let rr := alone (Leaf d true false) in
+  match ret rr with
+  | Ok qs => ({| results := [stored rr]; errors := []; emitted := qs |}, finout qs)
+  | SigmaErr e => if collect then ({| results := [stored rr]; errors := [(0, e)]; emitted := [] |}, finout [])
                   else (init query, SigmaErr e)
   | Crash c => (init query, Crash c)
   end.
 Proof.
   unfold Collection.convert, Collection.run, Collection.step.
   cbn -[Collection.finish].
-  destruct (finish (PD d) true false (conv1 d)) as [rr|e|c]; [reflexivity| |reflexivity].
+  destruct (ret (finish (PD d) true false (conv1 d))) as [rr|e|c]; [reflexivity| |reflexivity].
   destruct collect; reflexivity.
 Qed.
 
